@@ -3,6 +3,18 @@ TABLE = {
   text="Bounded symbolic execution (CrossHair/z3) of the real LRUCache methods: one inductive step from an arbitrary valid state for each of 14 operations (capacity 1-3, any insertion order of distinct keys 0-3, unbounded integer values), copy/pickle/deepcopy round trips, and all histories of <=2 (quick) / <=4 (thorough) operations from empty, each compared with a reference LRU map. Confirmed = the whole path tree was exhausted by the solver.",
   note="Trusted: CrossHair's model of dict/deque/list, z3. Keys are small ints (enumerated through hashing); OS-thread interleavings at bytecode granularity are outside the claim.",
   technique="symbolic execution (CrossHair/z3), one-step induction over arbitrary valid states + bounded histories vs reference model"),
+ "C07": dict(
+  text="Bounded symbolic execution of compiled for-loop templates (real code generator output + LoopContext/AsyncLoopContext): symbolic item list (<=2 quick / <=3 thorough ints of any value), symbolic loop-filter threshold and a symbolic schedule choosing, per iteration, which look-ahead/length attribute is read first, followed by a fixed second query and all position attributes; list/tuple/iterator/generator/async-generator inputs, sync and async, plus recursive loops over symbolic tree shapes. All observations compared with the documented values.",
+  note="Trusted: CrossHair models, z3; templates are compiled natively (only rendering is symbolic). Longer iterables and richer query patterns are outside the bound.",
+  technique="symbolic execution (CrossHair/z3) of generated loop code and LoopContext with symbolic data and query schedule vs reference model"),
+ "C06": dict(
+  text="Bounded symbolic execution of real Macro objects compiled from 104 signatures (0-3 parameters, constant/earlier-parameter/outer-variable defaults, varargs/kwargs/caller usage): symbolic number of positional arguments (0-5), symbolic presence of every keyword (parameters, unknown name, caller) and symbolic int values, called from Python through Template.module, from templates via *args/**kwargs and through call blocks, sync and async; plus solver-enumerated explicit call syntaxes (incl. reserved-word keywords). Oracle: the binding rules of the property statement.",
+  note="Trusted: CrossHair models, z3. Signatures with more than 3 parameters and non-int argument values are outside the bound.",
+  technique="symbolic execution (CrossHair/z3) of Macro.__call__ and generated macro code over symbolic call shapes vs executable binding spec"),
+ "C22": dict(
+  text="Bounded symbolic execution of 37 collection-filter templates (sync and async variants, list/generator/async-generator inputs): symbolic int lists (<=3 quick / <=4 thorough), lists of dicts built from symbolic ints, symbolic counts/fill values/flags, and solver-enumerated strings from a mixed-case table for case handling; results compared with the Python definitions, inputs compared with deep copies.",
+  note="Trusted: CrossHair models, z3, Python's sorted/min/max/sum as reference. Longer sequences and other element types are outside the bound.",
+  technique="symbolic execution (CrossHair/z3) of filter code through compiled templates vs Python reference definitions"),
 }
 NOT_APPLICABLE = {
  "C31": "Not applicable to solver-based checking: compile_templates/ModuleLoader are file-system, zip and import-system effects with no symbolic input to vary; the property quantifies over template sets, not data (DESIGN.md section 5).",
